@@ -91,6 +91,13 @@ def programs():
                                                threads=[[['send_text', 'T1-0 ' + 'snct snct snct snct ' * 9], ['send_binary', b'T1-1 ' + b'snct snct ' * 20]]])
     P['loop-server-zbfinal+sender-z'] = dict(z='permessage-deflate', loop='server-zbfinal', loop_n=2,
                                              threads=[[['send_text', 'T1-0 ' + 'bfinal bfinal bfinal ' * 9]]])
+    # two WebSocket objects alive in one process, same negotiated parameters, one sender thread each: every peer
+    # must be able to decode ITS connection
+    P['two-objects-z||'] = dict(z='permessage-deflate', two=True, objs=[0, 1],
+                                threads=[[['send_text', 'T0-0 shared shared shared shared'], ['send_text', 'T0-1 shared shared shared shared']],
+                                         [['send_text', 'T1-0 shared shared shared shared'], ['send_binary', b'T1-1 shared shared shared shared']]])
+    P['two-objects-z-nocontext||'] = dict(z='permessage-deflate; client_no_context_takeover', two=True, objs=[0, 1],
+                                          threads=[[['send_text', 'T0-0 nocontext nocontext nocontext']], [['send_text', 'T1-0 nocontext nocontext nocontext']]])
     # persist()-style use: the loop thread sees the connection end and connects again (same WebSocket object) while
     # another thread is in the middle of a send / close.  Connection 1 negotiated permessage-deflate, connection 2
     # does not: whatever a call that began on connection 1 does, it must not put anything on connection 2.
@@ -163,6 +170,15 @@ def _execute(prog, plan=None, rnd=None, switch_prob=0.0, files=None, pct=None):
                 if ev.name == 'poll' or len(evs) > 10:
                     break
             out.setup_ok = bool(evs) and evs[-1] == 'poll'
+            wss = [ws]
+            if prog.get('two'):
+                ws2 = env.WebSocket('ws://other.example/', compress=bool(z))
+                g2_ = ws2.connect(session_class=simnet.SimSession, **ckw)
+                for ev in g2_:
+                    if ev.name == 'poll':
+                        break
+                out.gen_two = g2_
+                wss.append(ws2)
             for call in prog.get('pre', ()):
                 # single-threaded set-up actions before the scheduled phase (e.g. the client has already closed)
                 getattr(ws, call[0])(*call[1:])
@@ -172,7 +188,8 @@ def _execute(prog, plan=None, rnd=None, switch_prob=0.0, files=None, pct=None):
             records = []
 
             def make_app(tid, calls):
-                def fn():
+                def fn(ws=None):
+                    ws = wss[prog['objs'][tid - (1 if loop else 0)]] if prog.get('objs') and tid < 90 else wss[0]
                     for j, call in enumerate(calls):
                         rec = dict(tid=tid, j=j, call=call, ok=False, exc=None, exc_type=None, log_before=len(w.log),
                                    state_obj=ws.state)
@@ -254,6 +271,11 @@ def _execute(prog, plan=None, rnd=None, switch_prob=0.0, files=None, pct=None):
                 g.close()
             except BaseException:   # noqa
                 pass
+            if getattr(out, 'gen_two', None) is not None:
+                try:
+                    out.gen_two.close()
+                except BaseException:   # noqa
+                    pass
             if getattr(out, 'gen2', None) is not None:
                 out.state2 = (ws.is_closing, ws.is_closed)
                 out.state2_obj = ws.state
@@ -301,6 +323,8 @@ def judge_c11(prog, out):
             return 'thread-died-with-exception', detail, None
     if prog.get('loop') == 'reconnect':
         return judge_reconnect(prog, out, detail)
+    if prog.get('two'):
+        return judge_two(prog, out, detail)
     frames, residue, errors = wire_frames(w)
     detail['wire'] = [(f['opcode'], f['rsv1'], f['payload'][:12]) for f in frames]
     if residue or errors:
@@ -367,6 +391,44 @@ def judge_c11(prog, out):
         bythread[tid] = j
     sig = tuple((tid, j) for pos, tid, j in sorted(order))
     return None, detail, sig
+
+
+def judge_two(prog, out, detail):
+    """two objects, one sender thread each: each connection's wire is a sequence of whole frames that ITS peer
+    (own context) decodes to exactly the messages sent on it, in call order"""
+    w = out.world
+    z = prog.get('z')
+    opts = dict(t.strip().partition('=')[::2] for t in z.split(';')[1:]) if z else {}
+    for ci in range(2):
+        frames, residue, errors = wire_frames(w, ci)
+        detail['wire%d' % ci] = [(f['opcode'], f['rsv1'], f['payload'][:10]) for f in frames]
+        if residue or errors:
+            return 'wire-not-a-sequence-of-whole-frames', detail, None
+        peer = deflate_peer.Peer(15, int(opts.get('client_max_window_bits') or 15), False, 'client_no_context_takeover' in opts)
+        got = []
+        for f in frames:
+            body = f['payload']
+            if f['rsv1']:
+                try:
+                    body = peer.inflate(body)
+                except deflate_peer.InflateError as e:
+                    detail['inflate_error'] = 'connection %d: %s' % (ci, e)
+                    return 'peer-cannot-inflate-in-wire-order:two-objects', detail, None
+            got.append((f['opcode'], body))
+        want = []
+        for r in out.records:
+            tid = r['tid']
+            if prog['objs'][tid] != ci:
+                continue
+            if not r['ok']:
+                return 'send-raised', detail, None
+            want.append(expected_payload(r['call']))
+        if got != want:
+            detail['connection'] = ci
+            detail['got'] = [(o, b[:16]) for o, b in got]
+            detail['want'] = [(o, b[:16]) for o, b in want]
+            return 'message-missing-or-garbled:two-objects', detail, None
+    return None, detail, ((len(detail['wire0']), len(detail['wire1'])),)
 
 
 def judge_reconnect(prog, out, detail):
